@@ -20,7 +20,12 @@ def geo_grid(F, f0=0.5, ratio=1.5):
     return [f0 * ratio ** i for i in range(F)]
 
 
-GRIDS = {"lin": lin_grid, "geo": geo_grid}
+def fine_grid(F, f0=1.0, df=0.002):
+    """Closely spaced linear grid: every standard deviation in Hz is < 0.01."""
+    return [f0 + df * i for i in range(F)]
+
+
+GRIDS = {"lin": lin_grid, "geo": geo_grid, "fine": fine_grid}
 
 # ---------------------------------------------------------------------------
 # curve shapes on F samples (amplitudes strictly positive)
